@@ -32,3 +32,14 @@ ENGINES += [
  {"name": "INV", "path": "sa/inv.py, sa/vals.py", "serves_properties": ["C01", "C05", "C06", "C14"],
   "kind_free_text": "who-writes / who-calls inventories, statement dominance, value canonicalisation"},
 ]
+
+CLAIMED.update({
+ "C02": {"engine": "ORD + FLOW + INV", "technique": "static analysis: exhaustive order abstraction of every installable comparator; flow-sensitive pairing of tag moves with hash back-pointer updates; layout/size agreement",
+         "text": "Decides the structural invariants the keyed-priority-queue behaviour rests on, for every path of every hashheap routine: all installable comparators are strict weak orders (total on keys); every tag moved into a live slot gets its hash back pointer before the slot index changes; every count decrement is preceded by a tombstone of the departing entry; count is raised only after the full->grow test; heap_size/hash_size/hash shift agree; the three size computations agree incl. two scratch slots; lookups return the entry found for the key; no loop over the heap restructures it. Sift/probe index arithmetic is not decided.",
+         "note": "trusts clang AST; index arithmetic of sift and probe loops out of reach"},
+ "C12": {"engine": "ORD + TRACE (FLOW)", "technique": "static analysis: exhaustive order abstraction + path-by-path region traces with dominance checks",
+         "text": "Decides for every path of put/get of both queue types: insertion dominated by length<capacity in the same atomic region; put links a fresh tag carrying the object once at the tail; successful get unlinks the head, delivers the head's object before the tag is recycled; non-success gets deliver NULL and change nothing; the priority comparator is the stated strict total order with auto-issued keys; who-writes and query agreement.",
+         "note": "list shape beyond the append/pop idioms and heap order (C02) not decided"},
+})
+ENGINES += [{"name": "TRACE", "path": "sa/engines/trace.py", "serves_properties": ["C12"],
+  "kind_free_text": "enumerates every path of a root function per atomic region and hands the ordered store/call/branch trace to a rule predicate"}]
